@@ -19,6 +19,7 @@ import (
 	"encoding/json"
 	"flag"
 	"fmt"
+	"github.com/risor-io/risor/vm"
 	"os"
 	"reflect"
 	"runtime"
@@ -350,7 +351,9 @@ func render(p []string, style string) string {
 	return ""
 }
 
-func evalAttempt(src string, opts []risor.Option, repl map[object.Object]string) (res N) {
+// evalAttempt evaluates src under the configuration, on a fresh VM or (reused) on a VM that an earlier
+// evaluation under the DEFAULT configuration has used: what that evaluation loaded must not be reachable.
+func evalAttempt(src string, opts []risor.Option, repl map[object.Object]string, reused bool) (res N) {
 	ctx, cancel := context.WithTimeout(context.Background(), 5*time.Second)
 	defer cancel()
 	vos := ros.NewVirtualOS(ctx, ros.WithStdout(ros.NewBufferFile(nil)))
@@ -360,6 +363,17 @@ func evalAttempt(src string, opts []risor.Option, repl map[object.Object]string)
 		}
 	}()
 	all := append([]risor.Option{risor.WithOS(vos)}, opts...)
+	if reused {
+		machine, err := vm.NewEmpty()
+		if err != nil {
+			return N{"ok": false, "l": "harness: " + err.Error(), "r": ""}
+		}
+		warm := append([]risor.Option{risor.WithOS(vos), risor.WithVM(machine)}, baseOptions()...)
+		if _, err := risor.Eval(ctx, "import os\nimport math\nimport strings\nimport exec\nimport time\nos.getpid() + math.abs(1)", warm...); err != nil {
+			return N{"ok": false, "l": "harness: warm-up failed: " + err.Error(), "r": ""}
+		}
+		all = append(all, risor.WithVM(machine))
+	}
 	v, err := risor.Eval(ctx, src, all...)
 	if err != nil {
 		msg := err.Error()
@@ -426,11 +440,14 @@ func caseWorker(req N) (resp N) {
 			if src == "" {
 				continue
 			}
-			o, repl := build()
-			r := evalAttempt(src, o, repl)
-			r["p"] = pi + 1
-			r["s"] = st
-			att = append(att, r)
+			for _, reused := range []bool{false, true} {
+				o, repl := build()
+				r := evalAttempt(src, o, repl, reused)
+				r["p"] = pi + 1
+				r["s"] = st
+				r["vm"] = map[bool]string{false: "fresh", true: "reused"}[reused]
+				att = append(att, r)
+			}
 		}
 	}
 	// a second, default configuration built afterwards
